@@ -708,13 +708,19 @@ def cartposlos2geocentric(x, y, z, dx, dy, dz, ppc=None,
         aa[noz] = 0.
         aa[pre] = np.rad2deg(np.arctan2(dy[pre], dx[pre]))
 
-        dlat = (- sinlat[non] * coslon[non] / r[non] * dx[non] + coslat[non] /
-                r[non] * dz[non] - sinlat[non] * sinlon[non] / r[non] * dy[non]
-                )
-        dlon = (- sinlon[non] / coslat[non] / r[non] * dx[non] + coslon[non] /
-                coslat[non] / r[non] * dy[non])
+        # Keep the shape of the input (boolean indexing flattens), the
+        # masks below are combined with dlat and dlon.
+        dlat = np.zeros(za.shape)
+        dlon = np.zeros(za.shape)
+        dlat[non] = (
+            - sinlat[non] * coslon[non] / r[non] * dx[non] + coslat[non] /
+            r[non] * dz[non] - sinlat[non] * sinlon[non] / r[non] * dy[non]
+            )
+        dlon[non] = (
+            - sinlon[non] / coslat[non] / r[non] * dx[non] + coslon[non] /
+            coslat[non] / r[non] * dy[non])
         aa[non] = (np.rad2deg(np.arccos(r[non] *
-                   dlat / np.sin(np.deg2rad(za[non])))))
+                   dlat[non] / np.sin(np.deg2rad(za[non])))))
 
         fix = np.logical_or(np.isnan(aa), ~np.isreal(aa))
 
